@@ -80,15 +80,78 @@ func expiryBatch(c *sup.Ctx) {
 	}
 }
 
+// sweepRaceBatch (C14): rewrites and touches that arrive while the expiry sweep for the old deadline is running.
+func sweepRaceBatch(c *sup.Ctx) {
+	const batch = 4
+	var wg sync.WaitGroup
+	results := make([]rt.SweepRaceResult, batch)
+	for j := 0; j < batch; j++ {
+		i := c.Local*batch + j
+		wg.Add(1)
+		go func(j, i int) {
+			defer wg.Done()
+			results[j] = rt.RunSweepRace(c.Tmp, i%2 == 1, rt.SweepVariants[(i/2)%len(rt.SweepVariants)], 1200+300*(i%3))
+		}(j, i)
+	}
+	wg.Wait()
+	for _, res := range results {
+		c.Count("sweep_race_scenarios", 1)
+		c.Cell(fmt.Sprintf("sweep-race|%s|%s", res.Variant, ifStr(res.Disk, "disk", "mem")))
+		if res.Incon != "" {
+			c.Count("sweep_race_scenarios_inconclusive", 1)
+			continue
+		}
+		if res.Rewrote {
+			c.Count("rewrites_acknowledged_during_a_sweep", 1)
+		}
+		for _, p := range res.Problems {
+			kind, text := splitKind(p)
+			c.Viol([]string{"C14"}, "sweep-race|"+kind+"|"+res.Variant, text, res)
+		}
+		c.Sample(res)
+	}
+}
+
+// tombstoneExpiryBatch (C14): "cleared by delete" for deletions made through entry points that take an expiry.
+func tombstoneExpiryBatch(c *sup.Ctx) {
+	const batch = 6
+	var wg sync.WaitGroup
+	results := make([]rt.TombstoneExpiryResult, batch)
+	for j := 0; j < batch; j++ {
+		i := c.Local*batch + j
+		wg.Add(1)
+		go func(j, i int) {
+			defer wg.Done()
+			results[j] = rt.RunTombstoneExpiry(c.Tmp, i%2 == 1, rt.TombstoneVariants[(i/2)%len(rt.TombstoneVariants)])
+		}(j, i)
+	}
+	wg.Wait()
+	for _, res := range results {
+		c.Count("tombstone_expiry_scenarios", 1)
+		c.Cell(fmt.Sprintf("tombstone-expiry|%s|%s", res.Variant, ifStr(res.Disk, "disk", "mem")))
+		if res.Incon != "" {
+			continue
+		}
+		for _, p := range res.Problems {
+			kind, text := splitKind(p)
+			c.Viol([]string{"C14", "C08"}, "tombstone-expiry|"+kind+"|"+res.Variant, text, res)
+		}
+		c.Sample(res)
+	}
+}
+
 func init() {
 	rtPart := func(q, t int) sup.Part {
 		return sup.Part{Name: "real-time-expiry", Timeout: 120 * time.Second, Count: func(tier string) int { return tierN(tier, q, t) }, Run: expiryBatch}
 	}
 	sup.Register(&sup.Check{
 		Prop: "C14", Level: "exploration",
-		Rule: "(real time) each scenario owns a bucket (in-memory / on-disk, 2 collections, a live feed on each); a deadline 2-3 s ahead is introduced through one of 19 entry points (relative or absolute form) in one of 13 order classes (only deadline; a later deadline of another key set before / after it through Set or through any of the 19 entry points, far Touch included; shortened or lengthened by a rewrite or a Touch; kept by PreserveExpiry; cleared by a plain rewrite or by delete + re-create; already past; same key without expiry in the sibling collection; deadline in a collection that was swept once, dropped and created again); GetExpiry must report the expiry in force; then only reads poll the key: a read that completes before second T and reports the key missing is a violation (sound under any load), and by T+3 s the document must be a tombstone and its deletion event must have reached the feed, or - for lengthened / cleared expiries - must still be readable, with a canary timer measuring scheduler lateness (> 500 ms makes the scenario inconclusive); (expiry in force, sequential) engine A judges GetExpiry after every entry point and pre-state; (reopen) documents with a pending or overdue deadline survive a kill / close and are tombstoned after reopen in a fresh process; cell = (introducing entry point, order class, relative/absolute)",
+		Rule:        "(real time) each scenario owns a bucket (in-memory / on-disk, 2 collections, a live feed on each); a deadline 2-3 s ahead is introduced through one of 19 entry points (relative or absolute form) in one of 14 order classes (only deadline; a later deadline of another key set before / after it through Set or through any of the 19 entry points, far Touch included; shortened or lengthened by a rewrite or a Touch; kept by PreserveExpiry; cleared by a plain rewrite or by delete + re-create; already past; same key without expiry in the sibling collection; deadline in a collection that was swept once, dropped and created again; deadline behind a decoy deadline that was lengthened / cleared / deleted, so that the sweep armed for it finds nothing); GetExpiry must report the expiry in force; then only reads poll the key: a read that completes before second T and reports the key missing is a violation (sound under any load), and by T+3 s the document must be a tombstone and its deletion event must have reached the feed, or - for lengthened / cleared expiries - must still be readable, with a canary timer measuring scheduler lateness (> 500 ms makes the scenario inconclusive); (sweep race) 1200-1800 documents share one deadline and, while the sweep for it runs, the target (due at the same instant) is rewritten without / with a far expiry or touched: once that is acknowledged the document must stay readable; (deleted with an expiry) Update with a deleting callback / WriteCas without a body carry an expiry argument: at that time no second deletion event and no CAS change may happen to the tombstone; (expiry in force, sequential) engine A judges GetExpiry after every entry point and pre-state; (reopen) documents with a pending or overdue deadline survive a kill / close and are tombstoned after reopen in a fresh process; cell = (introducing entry point, order class, relative/absolute)",
 		Assumptions: []string{"inherently wall-clock: decided on this VM's clock; 'a few seconds' is fixed at B = 3 s (a correctly armed timer fires within 1 s of T)", "every other deadline of the same bucket is absent or >= T+8 s, so a wrongly armed timer cannot be mistaken for lateness"},
-		Parts: append(append([]sup.Part{rtPart(20, 300)}, c14SeqParts()...), crashPart("pending-expiry", 30, 300, pendingExpiryScenario)),
+		Parts: append(append([]sup.Part{rtPart(20, 300),
+			{Name: "rewrite-during-sweep", Timeout: 120 * time.Second, Count: func(t string) int { return tierN(t, 5, 60) }, Run: sweepRaceBatch},
+			{Name: "deleted-with-an-expiry", Timeout: 120 * time.Second, Count: func(t string) int { return tierN(t, 2, 20) }, Run: tombstoneExpiryBatch},
+		}, c14SeqParts()...), crashPart("pending-expiry", 30, 300, pendingExpiryScenario)),
 		Floor: func(tier string, m *sup.Merged) string {
 			if m.Counts["deadlines_observed_firing"] < 100 {
 				return "fewer than 100 deadlines observed firing"
